@@ -147,6 +147,25 @@ def path(c, job):
             c.prove(f"C20.E {kind}-error-detected", s_not(s_eq(ref_crc(e), 0)), info=dict(kind=kind))
             if not c.symbolic:
                 c.prove(f"C20.E {kind}-error-detected", m.crc7(e) != 0, info=dict(kind=kind, through="real"))
+        elif kind == "types":
+            # bytes / bytearray / tuple inputs cannot carry symbolic content: every 1-byte and 2-byte message of each
+            # type is run through the real function (exhaustive enumeration, said so) against the bit-serial reference
+            m._crc7_table = real_table
+            bad = []
+            for T in (bytes, bytearray, tuple):
+                for a in range(256):
+                    if m.crc7(T([a])) != ref_crc([a]):
+                        bad.append((T.__name__, [a]))
+                    for b in ((0, 1, 0x30, 0x91, 0xFF, a) if job.get("light") else range(256)):
+                        if m.crc7(T([a, b])) != ref_crc([a, b]):
+                            bad.append((T.__name__, [a, b]))
+                if m.crc7(T()) != 0:
+                    bad.append((T.__name__, []))
+                for msg in ([0x30] * 5, [0] * 9 + [7], list(range(40)), [0x30, 0x30, 1, 2, 3, 0x30]):
+                    if m.crc7(T(msg)) != ref_crc(msg):
+                        bad.append((T.__name__, msg))
+            c.reach("types")
+            c.prove("C20.Y sequence-types-agree-with-bit-serial", not bad, info=dict(first_bad=bad[:3], n=len(bad)))
         elif kind == "reuse":
             # history: the same list object is checksummed, changed in place and checksummed again
             n = job["n"]
@@ -176,29 +195,30 @@ class C20(Spec):
     id = "C20"
     design_ref = "DESIGN.md §7 C20"
     real_capable = True
-    clauses = ["C20.T", "C20.L", "C20.D", "C20.R", "C20.X", "C20.E single", "C20.E double", "C20.E burst", "C20.B", "C20.H"]
+    clauses = ["C20.T", "C20.L", "C20.D", "C20.R", "C20.X", "C20.E single", "C20.E double", "C20.E burst", "C20.B", "C20.H", "C20.Y"]
     stubs = ["robotpy_ext.misc.crc7._crc7_table replaced by a z3 term built from the real table contents (ITE chain) or an uninterpreted function (length induction)"]
     assumptions = ["message bytes are integers in [0,255] (bytes / bytearray / list of ints)"]
     outside = ["data items outside [0,255] (IndexError / other table rows are not part of the statement)",
                "error-detection consequences are discharged on 16-byte messages; longer messages follow from linearity + the bijection of the zero-byte step (argument, not discharged)"]
 
     def jobs(self, tier):
-        N, ND = (16, 4) if tier == "quick" else (64, 6)
+        N, ND = (16, 4) if tier == "quick" else (64, 5)
         j = [dict(kind="table")]
         j += [dict(kind="len", n=n) for n in range(0, N + 1)]
         j += [dict(kind="direct", n=n) for n in range(0, ND + 1)]
         j += [dict(kind="linear")]
         j += [dict(kind=k) for k in ("single", "double", "burst", "bijection")]
         j += [dict(kind="reuse", n=n) for n in ((1, 2) if tier == "quick" else (1, 2, 3))]
+        j += [dict(kind="types", light=(tier == "quick"))]
         return j
 
     def bounds(self, tier):
-        N, ND = (16, 4) if tier == "quick" else (64, 6)
+        N, ND = (16, 4) if tier == "quick" else (64, 5)
         return dict(table="all 256 entries (symbolic index)", length_induction_up_to=N, direct_bitvector_equality_up_to_bytes=ND,
                     error_patterns="all single-bit, double-bit (<127 apart), burst (<=7) patterns in 16-byte messages")
 
     def reach_required(self, tier):
-        return ["table", "length-fold", "direct", "linear", "single", "double", "burst", "bijection", "reuse"]
+        return ["table", "length-fold", "direct", "linear", "single", "double", "burst", "bijection", "reuse", "types"]
 
     def path_fn(self, c, job):
         path(c, job)
